@@ -1,10 +1,443 @@
-(** Entry point used by the correspondence check, and the executable property
-    monitors P_Cxx over traces (model traces and traces observed on the Go stores). *)
+(** The executable property monitors P_Cxx over queue traces, and the entry points used
+    by the correspondence check.  A trace is a list of [event]s (operation, oracle,
+    result, stored messages before, stored messages after); the same monitors are
+    evaluated on model traces (theorems in Properties/) and on traces observed on the
+    Go stores (the checks).  They are written against the property statements, not
+    against the model's step function. *)
 From Coq Require Import List ZArith NArith Bool.
 From HK Require Import Gen.Consts Model.Queue Model.QueueHash.
 Import ListNotations.
 Open Scope Z_scope.
 
+(** ** equality on messages *)
+Definition optN_eqb (a b : option N) : bool :=
+  match a, b with
+  | Some x, Some y => N.eqb x y
+  | None, None => true
+  | _, _ => false
+  end.
+
+Definition imm_eq (a b : msg) : bool :=
+  N.eqb (m_id a) (m_id b) && N.eqb (m_route a) (m_route b) && N.eqb (m_target a) (m_target b)
+  && (m_recv a =? m_recv b) && N.eqb (m_body a) (m_body b) && N.eqb (m_hdr a) (m_hdr b)
+  && N.eqb (m_trace a) (m_trace b).
+
+Definition msg_eqb (a b : msg) : bool :=
+  imm_eq a b && st_eqb (m_st a) (m_st b) && (m_attempt a =? m_attempt b) && (m_next a =? m_next b)
+  && N.eqb (m_reason a) (m_reason b) && optN_eqb (m_lease a) (m_lease b) && (m_until a =? m_until b).
+
+Definition opt_msg_eqb (a b : option msg) : bool :=
+  match a, b with
+  | Some x, Some y => msg_eqb x y
+  | None, None => true
+  | _, _ => false
+  end.
+
+(** ** reading an event *)
+Definition res_ok (r : res) : bool :=
+  match r with RErr _ | RBadOracle => false | _ => true end.
+
+Definition deq_items (r : res) : list (N * N * Z * Z) :=
+  match r with RItems l => l | _ => [] end.
+Definition item_ids (r : res) : list N := map (fun it => fst (fst (fst it))) (deq_items r).
+Definition item_leases (r : res) : list N := map (fun it => snd (fst (fst it))) (deq_items r).
+
+Definition enq_list (x : op) : list enq :=
+  match x with Enqueue _ e => [e] | EnqueueBatch _ es => es | _ => [] end.
+
+Definition enq_assigned (e : event) : list (N * enq) :=
+  match assign_ids (enq_list (ev_op e)) (o_genids (ev_orc e)) with Some l => l | None => [] end.
+
+Definition enq_success (e : event) : bool :=
+  match ev_op e, ev_res e with
+  | Enqueue _ _, RUnit => true
+  | EnqueueBatch _ (_ :: _), RCount _ _ _ => true
+  | _, _ => false
+  end.
+
+Definition is_dequeue (x : op) : bool := match x with Dequeue _ _ _ _ _ => true | _ => false end.
+
+Definition prunes (x : op) : bool :=
+  match x with
+  | Enqueue _ _ | EnqueueBatch _ (_ :: _) | Dequeue _ _ _ _ _ | ListMessages _ _ _ | ListDead _ _ _ _ | Stats _ => true
+  | _ => false
+  end.
+
+Definition lref_id (l : lref) : option N := match l with LKnown x _ => Some x | _ => None end.
+
+(** the lease ids an operation presents *)
+Definition presented (x : op) : list N :=
+  match x with
+  | LeaseOp _ _ l => match lref_id l with Some i => [i] | None => [] end
+  | LeaseBatch _ _ ls => flat_map (fun l => match lref_id l with Some i => [i] | None => [] end) ls
+  | _ => []
+  end.
+
+Definition lease_op_kind (x : op) : option lease_kind :=
+  match x with
+  | LeaseOp _ k _ => Some k
+  | LeaseBatch _ k _ => Some (match k with KNack d => KNack (Z.max d 0) | _ => k end)
+  | _ => None
+  end.
+
+Definition presents (x : op) (m : msg) : bool :=
+  match m_lease m with Some l => memN l (presented x) | None => false end.
+
+(** this operation settled [m]'s current, unexpired lease with kind [want] *)
+Definition settles (e : event) (want : lease_kind -> bool) (m : msg) : bool :=
+  let now := op_now (ev_op e) in
+  match lease_op_kind (ev_op e) with
+  | Some k =>
+      want k && presents (ev_op e) m && is_leased m && (now <? m_until m)
+      && match ev_op e with LeaseOp _ _ _ => res_ok (ev_res e) | _ => true end
+  | None => false
+  end.
+
+Definition is_ack (k : lease_kind) := match k with KAck => true | _ => false end.
+Definition is_nack (k : lease_kind) := match k with KNack _ => true | _ => false end.
+Definition is_dead (k : lease_kind) := match k with KDead _ => true | _ => false end.
+Definition is_extend (k : lease_kind) := match k with KExtend _ => true | _ => false end.
+
+Definition manage_of (x : op) : option (manage_kind * bool) :=   (* kind, preview *)
+  match x with
+  | Manage _ k _ => Some (k, false)
+  | ManageF _ k f => Some (k, f_preview f)
+  | _ => None
+  end.
+
+(** ** retention eligibility (what a prune may remove) *)
+Definition dead_count (l : list msg) : Z := count_st (st_eqb Dead) l.
+
+Definition prune_eligible (c : cfg) (e : event) (m : msg) : bool :=
+  let now := op_now (ev_op e) in
+  prunes (ev_op e) && (0 <? c_prune_iv c) &&
+  (prune_age_eligible c now m
+   || (st_eqb (m_st m) Dead && (0 <? c_dlq_depth c) && (c_dlq_depth c <? dead_count (ev_before e))
+       && forallb (fun d => negb (st_eqb (m_st d) Dead) || (m_recv m <=? m_recv d)) (ev_after e))
+   || (is_dequeue (ev_op e) && expired now m && (0 <? c_ret_age c) && (m_recv m <=? now - c_ret_age c))).
+
+(** ** C02: conservation and legal transitions *)
+Definition coherent (m : msg) : bool :=
+  match m_st m, m_lease m with
+  | Leased, Some _ => true
+  | Leased, None => false
+  | _, Some _ => false
+  | _, None => true
+  end.
+
+Definition insert_ok (e : event) (m' : msg) : bool :=
+  enq_success e &&
+  match find (fun p : N * enq => N.eqb (fst p) (m_id m')) (enq_assigned e) with
+  | Some p => msg_eqb m' (mk_msg (op_now (ev_op e)) (fst p) (snd p))
+  | None => false
+  end.
+
+Definition evict_ok (c : cfg) (e : event) (m : msg) : bool :=
+  enq_success e && c_drop_oldest c && (0 <? c_max_depth c) && queuedb m.
+
+Definition change_ok (c : cfg) (e : event) (m m' : msg) : bool :=
+  let x := ev_op e in
+  let now := op_now x in
+  if msg_eqb m m' then true
+  else
+    match m_st m, m_st m' with
+    | Queued, Leased =>
+        is_dequeue x && memN (m_id m) (item_ids (ev_res e)) && (m_attempt m' =? m_attempt m + 1)
+    | Leased, Leased =>
+        (settles e is_extend m && optN_eqb (m_lease m) (m_lease m') && (m_attempt m' =? m_attempt m))
+        || (is_dequeue x && expired now m && memN (m_id m) (item_ids (ev_res e))
+            && negb (optN_eqb (m_lease m) (m_lease m')) && (m_attempt m' =? m_attempt m + 1))
+    | Leased, Queued =>
+        (m_attempt m' =? m_attempt m)
+        && ((expired now m && (is_dequeue x || presents x m)) || settles e is_nack m)
+    | Leased, Delivered => (m_attempt m' =? m_attempt m) && settles e is_ack m
+    | Leased, Dead => (m_attempt m' =? m_attempt m) && settles e is_dead m
+    | (Queued | Leased | Dead), Canceled =>
+        (m_attempt m' =? m_attempt m) && match manage_of x with Some (MCancel, false) => true | _ => false end
+    | Dead, Queued =>
+        (m_attempt m' =? m_attempt m)
+        && match manage_of x with Some ((MRequeue | MRequeueDead), false) => true | _ => false end
+    | Canceled, Queued =>
+        (m_attempt m' =? m_attempt m)
+        && match manage_of x with Some ((MRequeue | MResume), false) => true | _ => false end
+    | _, _ => false
+    end.
+
+Definition removal_ok (c : cfg) (e : event) (m : msg) : bool :=
+  settles e is_ack m
+  || match ev_op e with
+     | Manage _ MDeleteDead ids => st_eqb (m_st m) Dead && memN (m_id m) (norm_ids ids [])
+     | _ => false
+     end
+  || prune_eligible c e m
+  || evict_ok c e m.
+
+(** the incarnation [m] of its id is no longer stored afterwards (absent, or replaced by a
+    different message under the same id) *)
+Definition survivor (e : event) (m : msg) : option msg :=
+  match find_id (m_id m) (ev_after e) with
+  | Some m' => if imm_eq m m' then Some m' else None
+  | None => None
+  end.
+
+Definition removed (e : event) : list msg :=
+  filter (fun m => match survivor e m with Some _ => false | None => true end) (ev_before e).
+
+Definition inserted (e : event) : list msg :=
+  filter (fun m' => match find_id (m_id m') (ev_before e) with
+                    | Some m => negb (imm_eq m m')
+                    | None => true
+                    end) (ev_after e).
+
+Definition evicted (c : cfg) (e : event) : list msg :=
+  filter (fun m => negb (settles e is_ack m) && negb (prune_eligible c e m)
+                   && match ev_op e with Manage _ MDeleteDead _ => false | _ => true end) (removed e).
+
+Definition c02_event (c : cfg) (e : event) : bool :=
+  nodupN (map m_id (ev_after e))
+  && forallb coherent (ev_after e)
+  && forallb (fun m => match survivor e m with
+                       | Some m' => change_ok c e m m'
+                       | None => removal_ok c e m
+                       end) (ev_before e)
+  && forallb (insert_ok e) (inserted e)
+  (* evictions only in favour of messages actually stored, one each at most *)
+  && (Z.of_nat (length (evicted c e)) <=? Z.of_nat (length (filter (insert_ok e) (ev_after e)))).
+
+(** ** C03: lease exclusivity *)
+Definition lease_ids (l : list msg) : list N :=
+  flat_map (fun m => match m_lease m with Some x => [x] | None => [] end) l.
+
+Definition c03_item (e : event) (route target : option N) (it : N * N * Z * Z) : bool :=
+  let '(i, lid, att, un) := it in
+  let now := op_now (ev_op e) in
+  match find_id i (ev_before e), find_id i (ev_after e) with
+  | Some m, Some m' =>
+      opt_match route (m_route m) && opt_match target (m_target m)
+      && ((queuedb m && (m_next m <=? now)) || expired now m)
+      && is_leased m' && optN_eqb (m_lease m') (Some lid)
+      && (m_attempt m' =? m_attempt m + 1) && (att =? m_attempt m')
+      && (un =? m_until m') && (now <? un)
+      && negb (memN lid (lease_ids (ev_before e)))
+  | _, _ => false
+  end.
+
+Definition c03_event (issued_before : list N) (e : event) : bool :=
+  nodupN (lease_ids (ev_after e))
+  && match ev_op e with
+     | Dequeue _ route target _ _ =>
+         match ev_res e with
+         | RItems items =>
+             nodupN (item_ids (ev_res e)) && nodupN (item_leases (ev_res e))
+             && forallb (fun l => negb (memN l issued_before)) (item_leases (ev_res e))
+             && forallb (c03_item e route target) items
+         | RErr _ => true
+         | _ => false
+         end
+     | _ =>
+         (* nothing but a dequeue creates a lease or changes which lease a message carries *)
+         forallb (fun m' => match m_lease m' with
+                            | None => true
+                            | Some l => match find_id (m_id m') (ev_before e) with
+                                        | Some m => optN_eqb (m_lease m) (Some l)
+                                        | None => false
+                                        end
+                            end) (ev_after e)
+     end.
+
+(** ** C04: lease fencing *)
+Definition current (now : Z) (l : N) (ms : list msg) : option msg :=
+  match find_lease l ms with
+  | Some m => if is_leased m && (now <? m_until m) then Some m else None
+  | None => None
+  end.
+
+Definition c04_msg (c : cfg) (e : event) (k : lease_kind) (single_ok : bool) (m : msg) : bool :=
+  let now := op_now (ev_op e) in
+  let after := find_id (m_id m) (ev_after e) in
+  if presents (ev_op e) m && is_leased m then
+    if now <? m_until m then
+      (* the current lease: the operation's effect, or - for a single op that failed - nothing *)
+      (single_ok && opt_msg_eqb after (lease_effect c now k m))
+      || (negb single_ok && opt_msg_eqb after (Some m))
+    else
+      (* an expired lease: nothing, or the message goes back to the queue *)
+      opt_msg_eqb after (Some m) || opt_msg_eqb after (Some (release now m))
+  else opt_msg_eqb after (Some m).
+
+Definition c04_event (c : cfg) (e : event) : bool :=
+  let now := op_now (ev_op e) in
+  match ev_op e with
+  | LeaseOp _ k l =>
+      if is_noop_extend k then
+        match ev_res e with RUnit => forallb (fun m => opt_msg_eqb (find_id (m_id m) (ev_after e)) (Some m)) (ev_before e)
+                                         && (Nat.eqb (length (ev_after e)) (length (ev_before e)))
+                       | _ => false end
+      else
+        let ok := res_ok (ev_res e) in
+        (* success only for the current, unexpired lease *)
+        (negb ok || match lref_id l with
+                    | Some x => match current now x (ev_before e) with Some _ => true | None => false end
+                    | None => false
+                    end)
+        && forallb (c04_msg c e k ok) (ev_before e)
+        && (Nat.eqb (length (inserted e)) 0)
+  | LeaseBatch _ k ls =>
+      match lease_op_kind (ev_op e), ev_res e with
+      | Some k', RBatch n cs =>
+          forallb (c04_msg c e k' true) (ev_before e)
+          && (Nat.eqb (length (inserted e)) 0)
+          (* succeeded = number of distinct current leases presented; every other presented id is a conflict *)
+          && (n =? Z.of_nat (length (filter (fun m => presents (ev_op e) m && is_leased m && (now <? m_until m)) (ev_before e))))
+          && (Z.of_nat (length cs) =? Z.of_nat (length ls) - n)
+          && (Z.of_nat (length (filter (fun p : cref * bool => snd p) cs))
+              =? Z.of_nat (length (filter (fun m => presents (ev_op e) m && expired now m) (ev_before e))))
+      | _, _ => false
+      end
+  | _ => true
+  end.
+
+(** ** C05: at-least-once redelivery *)
+Definition c05_event (e : event) : bool :=
+  match ev_op e with
+  | Dequeue now route target batch _ =>
+      match ev_res e with
+      | RItems items =>
+          let b := clamp_batch batch in
+          let survives (m : msg) := has_id (m_id m) (ev_after e) in
+          let matches (m : msg) := opt_match route (m_route m) && opt_match target (m_target m) && survives m in
+          let due (m : msg) := queuedb m && (m_next m <=? now) in
+          let rmax := Z.of_nat (length (filter (fun m => matches m && (due m || expired now m)) (ev_before e))) in
+          let rmin := Z.of_nat (length (filter (fun m => matches m && (due m || expired (now - sql_sweep_interval_ns) m)) (ev_before e))) in
+          let n := Z.of_nat (length items) in
+          (Z.min b rmin <=? n) && (n <=? Z.min b rmax)
+          && forallb (fun i => match find_id i (ev_before e) with
+                               | Some m => due m || expired now m
+                               | None => false end) (item_ids (ev_res e))
+      | RErr _ => true
+      | _ => false
+      end
+  | _ => true
+  end.
+
+(** ** C12: admission by depth and drop policy *)
+Fixpoint pos_in (i : N) (l : list N) : Z :=
+  match l with
+  | [] => 1000000000
+  | x :: tl => if N.eqb x i then 0 else 1 + pos_in i tl
+  end.
+
+Definition c12_event (fl : flavour) (c : cfg) (ins_order : list N) (e : event) : bool :=
+  match ev_op e with
+  | Enqueue _ _ | EnqueueBatch _ (_ :: _) =>
+      let k := Z.of_nat (length (enq_list (ev_op e))) in
+      let pruned := filter (prune_eligible c e) (removed e) in
+      let ev := filter (fun m => negb (prune_eligible c e m)) (removed e) in
+      let base := filter (fun m => negb (memN (m_id m) (map m_id pruned))) (ev_before e) in
+      let a := active base in
+      let a' := match fl with
+                | Mem => if 0 <? c_deliv_age c then Z.max a (active_deliv base) else a
+                | Sql => a
+                end in
+      let rest := filter (fun m => negb (memN (m_id m) (map m_id ev))) base in
+      if (0 <? c_max_depth c) && (c_max_depth c <? a') then true   (* active count already lifted above max_depth by an operator requeue/resume: excluded by the statement *)
+      else if enq_success e then
+        (Z.of_nat (length (filter (insert_ok e) (ev_after e))) =? k)
+        && if 0 <? c_max_depth c then
+             if c_drop_oldest c then
+               forallb queuedb ev
+               && (Z.of_nat (length ev) =? Z.max 0 (a' + k - c_max_depth c))
+               (* oldest first: by received_at or by insertion order *)
+               && forallb (fun v => forallb (fun q => negb (queuedb q)
+                                                      || (m_recv v <=? m_recv q)
+                                                      || (pos_in (m_id v) ins_order <? pos_in (m_id q) ins_order)) rest) ev
+             else (Nat.eqb (length ev) 0) && (a' + k <=? c_max_depth c)
+           else Nat.eqb (length ev) 0
+      else
+        (* refused: nothing evicted, nothing stored, nothing else touched *)
+        (Nat.eqb (length ev) 0) && (Nat.eqb (length (inserted e)) 0)
+        && forallb (fun m => opt_msg_eqb (find_id (m_id m) (ev_after e)) (Some m)) base
+  | _ => true
+  end.
+
+(** ** C14: operator mutations touch exactly what they name *)
+Definition c14_event (e : event) : bool :=
+  let b := ev_before e in
+  match ev_op e with
+  | Manage now k ids =>
+      let nids := norm_ids ids [] in
+      let sel (m : msg) := memN (m_id m) nids && allowed_from k (m_st m) in
+      forallb (fun m => opt_msg_eqb (find_id (m_id m) (ev_after e)) (if sel m then manage_effect now k m else Some m)) b
+      && (Nat.eqb (length (inserted e)) 0)
+      && match ev_res e with
+         | RCount n _ false => n =? Z.of_nat (length (filter sel b))
+         | _ => false
+         end
+  | ManageF now k f =>
+      let ids := filter_select k f b in
+      let sel (m : msg) := memN (m_id m) ids in
+      match ev_res e with
+      | RCount n matched prev =>
+          Bool.eqb prev (f_preview f)
+          && (matched =? Z.of_nat (length ids))
+          && (Nat.eqb (length (inserted e)) 0)
+          && if f_preview f then
+               (n =? 0) && forallb (fun m => opt_msg_eqb (find_id (m_id m) (ev_after e)) (Some m)) b
+             else
+               (n =? Z.of_nat (length ids))
+               && forallb (fun m => opt_msg_eqb (find_id (m_id m) (ev_after e))
+                                                (if sel m then manage_effect now k m else Some m)) b
+      | _ => false
+      end
+  | _ => true
+  end.
+
+(** ** running the monitors over a trace *)
+Definition upd_ins (ins : list N) (e : event) : list N :=
+  filter (fun i => has_id i (ev_after e) && negb (memN i (map m_id (filter (insert_ok e) (ev_after e))))) ins
+  ++ map m_id (filter (insert_ok e) (ev_after e)).
+
+(** index of the first event at which the monitor fails, -1 if none *)
+Fixpoint first_fail (k : Z) (l : list bool) : Z :=
+  match l with
+  | [] => -1
+  | true :: tl => first_fail (k + 1) tl
+  | false :: _ => k
+  end.
+
+Fixpoint mon_all (fl : flavour) (c : cfg) (issued_before ins : list N) (evs : list event)
+  : list (bool * bool * bool * bool * bool * bool) :=
+  match evs with
+  | [] => []
+  | e :: tl =>
+      (c02_event c e, c03_event issued_before e, c04_event c e, c05_event e, c12_event fl c ins e, c14_event e)
+      :: mon_all fl c (issued_before ++ item_leases (ev_res e)) (upd_ins ins e) tl
+  end.
+
+Definition P_C02 (fl : flavour) (c : cfg) (evs : list event) : bool :=
+  forallb (fun t => fst (fst (fst (fst (fst t))))) (mon_all fl c [] [] evs).
+Definition P_C03 (fl : flavour) (c : cfg) (evs : list event) : bool :=
+  forallb (fun t => snd (fst (fst (fst (fst t))))) (mon_all fl c [] [] evs).
+Definition P_C04 (fl : flavour) (c : cfg) (evs : list event) : bool :=
+  forallb (fun t => snd (fst (fst (fst t)))) (mon_all fl c [] [] evs).
+Definition P_C05 (fl : flavour) (c : cfg) (evs : list event) : bool :=
+  forallb (fun t => snd (fst (fst t))) (mon_all fl c [] [] evs).
+Definition P_C12 (fl : flavour) (c : cfg) (evs : list event) : bool :=
+  forallb (fun t => snd (fst t)) (mon_all fl c [] [] evs).
+Definition P_C14 (fl : flavour) (c : cfg) (evs : list event) : bool :=
+  forallb (fun t => snd t) (mon_all fl c [] [] evs).
+
+Definition mon_summary (fl : flavour) (c : cfg) (evs : list event) : list Z :=
+  let rows := mon_all fl c [] [] evs in
+  [first_fail 0 (map (fun t => fst (fst (fst (fst (fst t))))) rows);
+   first_fail 0 (map (fun t => snd (fst (fst (fst (fst t))))) rows);
+   first_fail 0 (map (fun t => snd (fst (fst (fst t)))) rows);
+   first_fail 0 (map (fun t => snd (fst (fst t))) rows);
+   first_fail 0 (map (fun t => snd (fst t)) rows);
+   first_fail 0 (map (fun t => snd t) rows);
+   first_fail 0 (map (fun e => match ev_res e with RBadOracle => false | _ => true end) evs)].
+
+(** correspondence entry point: checksums of the model trace + monitors on the model trace *)
 Definition check_case (fl : flavour) (c : cfg) (xs : list (op * oracle)) (mask : list bool) : list Z * list Z :=
   let evs := model_trace fl c xs in
-  (hash_trace mask evs, []).
+  (hash_trace mask evs, mon_summary fl c evs).
